@@ -33,9 +33,8 @@ type Q struct {
 	Args    []*Q    // callf: actual parameters
 }
 
-// value parameters (def f($x): ...) are modelled in VM.v / Den.v but not yet covered by Compile.comp (the theorem);
-// they are generated only when this switch is on
-var genPV = false
+// value parameters (def f($x): ...) are generated when this switch is on (covered by Compile.comp and the theorem)
+var genPV = true
 
 // a formal parameter: a filter (def f(g): named f<N>) or a value (def f($x): named $v<N>)
 type Param struct {
